@@ -128,7 +128,7 @@ def check(prog, res, tier):
                     fails += need_ge0(st, Lin.const(CAP) - b.length(), f'a carrier string may grow to {st.canon(b.length())} '
                                                                         f'characters, more than {CAP}')
         for e in p.events:
-            if e.kind == 'list-append' and e.func == pfi.short:
+            if e.kind == 'list-append' and e.under(pfi.short):
                 v = e.data['value']
                 if not isinstance(v, SeqV):
                     fails.append(definite(f'a non-string carrier {v!r} is produced', e.node))
@@ -145,7 +145,7 @@ def check(prog, res, tier):
         an iteration boundary, and what follows starts with a complete sub-element."""
         fails = []
         for first, last, s0, s1, head in iterations(p, func=pfi.short):
-            apps = [e for e in p.events if e.kind == 'list-append' and e.func == pfi.short and first < e.seq < last]
+            apps = [e for e in p.events if e.kind == 'list-append' and e.under(pfi.short) and first < e.seq < last]
             k, a, b = appended_part(p, s0, s1)
             if k is None:
                 continue
@@ -165,11 +165,11 @@ def check(prog, res, tier):
     def chk_order(p, mode):
         fails = []
         for e in p.events:
-            if e.kind == 'ext-call' and e.data['callee'] == 'sorted' and e.func == pfi.short:
+            if e.kind == 'ext-call' and e.data['callee'] == 'sorted' and e.under(pfi.short):
                 r = e.data['result']
                 if not (isinstance(r, ListV) and r.order == 'asc'):
                     fails.append(definite('PDS keys are not visited in ascending order', e.node))
-        if not any(e.kind == 'ext-call' and e.data['callee'] == 'sorted' and e.func == pfi.short for e in p.events):
+        if not any(e.kind == 'ext-call' and e.data['callee'] == 'sorted' and e.under(pfi.short) for e in p.events):
             fails.append(definite('PDS keys are not sorted before packing'))
         return fails
     res.add(runs.judge('C12.d', 'PDS keys are packed in ascending tag order', func_where(pfi), "sorted([key for key in dict_values if key.startswith('PDS')])",
@@ -193,7 +193,7 @@ def check(prog, res, tier):
 
     def chk_carriers(p, mode):
         fails = []
-        pops = [e for e in p.events if e.kind == 'list-pop' and e.func == dfi.short]
+        pops = [e for e in p.events if e.kind == 'list-pop' and e.under(dfi.short)]
         for e in pops:
             if e.data['index'] is None or p.store.decide_eq0(Lin.of(e.data['index']) + 1) is True:
                 if e.data['order'] != 'desc':
@@ -206,7 +206,7 @@ def check(prog, res, tier):
                 fails.append(soft('carrier selection not recognised', e.node))
         # each carrier string is stored under DE<popped number>
         for first, last, s0, s1, head in iterations(p, func=dfi.short):
-            sets = [e for e in p.events if e.kind == 'setitem' and e.func == dfi.short and first < e.seq < last
+            sets = [e for e in p.events if e.kind == 'setitem' and e.under(dfi.short) and first < e.seq < last
                     and e.data['obj'] is p.interp.user['msg']]
             pp = [e for e in pops if first < e.seq < last]
             if pp and not sets:
@@ -242,12 +242,12 @@ def check(prog, res, tier):
             ws = tuple(p.store.canon(hi - lo) for _e, lo, hi, _o in sl[:2])
             widths.add(ws)
             for e in p.events:
-                if e.kind == 'ext-call' and e.data['callee'] == 'int' and e.func == up.name:
+                if e.kind == 'ext-call' and e.data['callee'] == 'int' and e.under(up.name):
                     b = 10
                     if len(e.data['args']) > 1:
                         b = p.interp.py_key(e.data['args'][1])
                     bases.add(b)
-                if e.kind == 'setitem' and e.func == up.name and isinstance(e.data['key'], SeqV) and e.data['key'].segs \
+                if e.kind == 'setitem' and e.under(up.name) and isinstance(e.data['key'], SeqV) and e.data['key'].segs \
                         and isinstance(e.data['key'].segs[0], Lit):
                     keyprefix.add(e.data['key'].segs[0].data)
         want = {(Lin.const(4), Lin.const(3))}
